@@ -75,7 +75,7 @@ Definition mkind (s : selection) : skind :=
 Lemma member_keys_In m sels s : In s sels -> In (mkey m s) (member_keys m sels).
 Proof.
   intros HI. unfold member_keys. destruct s as [a f sub|c sub|f c body]; simpl.
-  - apply in_app_iff. left. apply in_map_iff. exists (sel_key a f, f). split; [reflexivity|].
+  - apply in_app_iff. left. apply In_dedup. apply in_map_iff. exists (sel_key a f, f). split; [reflexivity|].
     unfold direct_fields. apply in_flat_map. exists (SField a f sub). split; [exact HI | left; reflexivity].
   - apply in_app_iff. right. apply in_app_iff. left. apply In_dedup. apply in_flat_map.
     exists (SInline c sub). split; [exact HI | left; reflexivity].
@@ -86,59 +86,17 @@ Qed.
 Lemma direct_fields_app a b : direct_fields (a ++ b) = direct_fields a ++ direct_fields b.
 Proof. unfold direct_fields. apply flat_map_app. Qed.
 
-(** two selections of one set stored under the same key are two inline fragments on one type or
-    two spreads of one fragment *)
-Lemma same_key_same_kind m pre s rest s' :
-  members_distinct m (pre ++ s :: rest) = true ->
-  In s' pre -> mkey m s' = mkey m s ->
-  mkind s' = mkind s /\ mkind s <> KField.
-Proof.
-  unfold members_distinct. intros ND HI E. apply nodupb_NoDup in ND.
-  set (all := pre ++ s :: rest) in *.
-  assert (HIs : In s all) by (apply in_app_iff; right; left; reflexivity).
-  assert (HIs' : In s' all) by (apply in_app_iff; left; exact HI).
-  unfold member_keys in ND. rewrite !map_app in ND.
-  set (A := map field_name (map fst (direct_fields all))) in *.
-  set (B := map field_name (dedup (flat_map (fun s0 => match s0 with SInline c _ => [inline_cond m c] | _ => [] end) all))) in *.
-  set (C := map field_name (dedup (flat_map (fun s0 => match s0 with SSpread n _ _ => [n] | _ => [] end) all))) in *.
-  assert (HA : forall x, In x all -> mkind x = KField -> In (field_name (mkey m x)) A).
-  { intros x Hx Hk. destruct x as [a f sub| |]; try discriminate. unfold A. apply in_map. apply in_map_iff.
-    exists (sel_key a f, f). split; [reflexivity|]. unfold direct_fields. apply in_flat_map.
-    exists (SField a f sub). split; [exact Hx | left; reflexivity]. }
-  assert (HB : forall x, In x all -> mkind x = KInline -> In (field_name (mkey m x)) B).
-  { intros x Hx Hk. destruct x as [|c sub|]; try discriminate. unfold B. apply in_map. apply In_dedup.
-    apply in_flat_map. exists (SInline c sub). split; [exact Hx | left; reflexivity]. }
-  assert (HC : forall x, In x all -> mkind x = KSpread -> In (field_name (mkey m x)) C).
-  { intros x Hx Hk. destruct x as [| |f c body]; try discriminate. unfold C. apply in_map. apply In_dedup.
-    apply in_flat_map. exists (SSpread f c body). split; [exact Hx | left; reflexivity]. }
-  destruct (mkind s') eqn:K', (mkind s) eqn:K; try (split; [reflexivity | discriminate]); exfalso.
-  - (* two fields: the key occurs twice among the direct fields *)
-    destruct s' as [a' f' sub'| |]; try discriminate. destruct s as [a f sub| |]; try discriminate.
-    simpl in E. apply NoDup_app_l in ND. unfold A, all in ND. rewrite direct_fields_app in ND.
-    rewrite !map_app in ND. simpl in ND.
-    apply (NoDup_app_disjoint _ _ (field_name (sel_key a f)) ND).
-    + rewrite <- E. apply in_map. apply in_map_iff. exists (sel_key a' f', f'). split; [reflexivity|].
-      unfold direct_fields. apply in_flat_map. exists (SField a' f' sub'). split; [exact HI | left; reflexivity].
-    + left. reflexivity.
-  - apply (NoDup_app_disjoint A (B ++ C) (field_name (mkey m s))); [exact ND | rewrite <- E; apply HA; assumption | apply in_app_iff; left; apply HB; assumption].
-  - apply (NoDup_app_disjoint A (B ++ C) (field_name (mkey m s))); [exact ND | rewrite <- E; apply HA; assumption | apply in_app_iff; right; apply HC; assumption].
-  - apply (NoDup_app_disjoint A (B ++ C) (field_name (mkey m s))); [exact ND | apply HA; assumption | apply in_app_iff; left; rewrite <- E; apply HB; assumption].
-  - apply NoDup_app_r in ND. apply (NoDup_app_disjoint B C (field_name (mkey m s))); [exact ND | rewrite <- E; apply HB; assumption | apply HC; assumption].
-  - apply (NoDup_app_disjoint A (B ++ C) (field_name (mkey m s))); [exact ND | apply HA; assumption | apply in_app_iff; right; rewrite <- E; apply HC; assumption].
-  - apply NoDup_app_r in ND. apply (NoDup_app_disjoint B C (field_name (mkey m s))); [exact ND | apply HB; assumption | rewrite <- E; apply HC; assumption].
-Qed.
-
 (** selections of different kinds are never stored under the same key *)
 Lemma kinds_disjoint m all s1 s2 :
   members_distinct m all = true -> In s1 all -> In s2 all -> mkey m s1 = mkey m s2 -> mkind s1 <> mkind s2 -> False.
 Proof.
   unfold members_distinct. intros ND H1 H2 E NK. apply nodupb_NoDup in ND.
   unfold member_keys in ND. rewrite !map_app in ND.
-  set (A := map field_name (map fst (direct_fields all))) in *.
+  set (A := map field_name (dedup (map fst (direct_fields all)))) in *.
   set (B := map field_name (dedup (flat_map (fun s0 => match s0 with SInline c _ => [inline_cond m c] | _ => [] end) all))) in *.
   set (C := map field_name (dedup (flat_map (fun s0 => match s0 with SSpread n _ _ => [n] | _ => [] end) all))) in *.
   assert (HA : forall x, In x all -> mkind x = KField -> In (field_name (mkey m x)) A).
-  { intros x Hx Hk. destruct x as [a f sub| |]; try discriminate. unfold A. apply in_map. apply in_map_iff.
+  { intros x Hx Hk. destruct x as [a f sub| |]; try discriminate. unfold A. apply in_map. apply In_dedup. apply in_map_iff.
     exists (sel_key a f, f). split; [reflexivity|]. unfold direct_fields. apply in_flat_map.
     exists (SField a f sub). split; [exact Hx | left; reflexivity]. }
   assert (HB : forall x, In x all -> mkind x = KInline -> In (field_name (mkey m x)) B).
@@ -154,6 +112,20 @@ Proof.
   - apply NoDup_app_r in ND. apply (NoDup_app_disjoint B C (field_name (mkey m s2))); [exact ND | rewrite <- E; apply HB; assumption | apply HC; assumption].
   - apply (NoDup_app_disjoint A (B ++ C) (field_name (mkey m s2))); [exact ND | apply HA; assumption | apply in_app_iff; right; rewrite <- E; apply HC; assumption].
   - apply NoDup_app_r in ND. apply (NoDup_app_disjoint B C (field_name (mkey m s2))); [exact ND | apply HB; assumption | rewrite <- E; apply HC; assumption].
+Qed.
+
+(** two selections of one set stored under the same key are of the same kind: two selections of
+    one response key, two inline fragments on one type or two spreads of one fragment *)
+Lemma skind_eq_dec (a b : skind) : {a = b} + {a <> b}.
+Proof. decide equality. Qed.
+
+Lemma same_key_same_kind m pre s rest s' :
+  members_distinct m (pre ++ s :: rest) = true ->
+  In s' pre -> mkey m s' = mkey m s ->
+  mkind s' = mkind s.
+Proof.
+  intros ND HI E. destruct (skind_eq_dec (mkind s') (mkind s)) as [H|H]; [exact H|]. exfalso.
+  apply (kinds_disjoint m (pre ++ s :: rest) s' s ND); [apply in_app_iff; left; exact HI | apply in_app_iff; right; left; reflexivity | exact E | exact H].
 Qed.
 
 (** ** the loop invariant *)
@@ -184,8 +156,8 @@ Section LoopInv.
 
   (** admissible recursive calls and what they give *)
   Definition sub_call (mm : name) (sub : list selection) : Prop :=
-    (exists a f, In (SField a f sub) all /\ is_typename f = false /\
-                 exists ft, field_type S m f = Some ft /\ unwrap ft = mm) \/
+    (exists a f sub0, In (SField a f sub0) all /\ is_typename f = false /\ sub = merged_field (sel_key a f) all /\
+                      exists ft, field_type S m f = Some ft /\ unwrap ft = mm) \/
     (exists c sub0, In (SInline c sub0) all /\ mm = inline_cond m c /\ sub = merged_inline m mm all).
 
   Hypothesis Hrec : forall mm sub st core b st',
@@ -195,6 +167,9 @@ Section LoopInv.
   Hypothesis Hlookup : lookup_type S m = Some d.
   Hypothesis Hmembers : members_distinct m all = true.
   Hypothesis Hspreads : forall f c body, In (SSpread f c body) all -> In f (map fr_name frs).
+  (** selections of one response key select the same field *)
+  Hypothesis Hkeys : forall a f sub a' f' sub', In (SField a f sub) all -> In (SField a' f' sub') all ->
+                                                sel_key a f = sel_key a' f' -> f = f'.
 
   (** the type stored for a field selection *)
   Definition field_ty (f : name) (sub : list selection) (T : gotype) : Prop :=
@@ -204,7 +179,7 @@ Section LoopInv.
 
   (** where an entry of [fields] comes from *)
   Definition entry_src (pre : list selection) (k : name) (T : gotype) (dash : bool) : Prop :=
-    (dash = false /\ exists a f sub, In (SField a f sub) pre /\ k = sel_key a f /\ field_ty f sub T) \/
+    (dash = false /\ exists a f sub, In (SField a f sub) pre /\ k = sel_key a f /\ field_ty f (merged_field k all) T) \/
     (dash = true /\ exists c sub, In (SInline c sub) pre /\ k = inline_cond m c /\
                                   exists core, T = GPtr core /\ Good k (merged_inline m k all) core) \/
     (dash = true /\ exists c body, In (SSpread k c body) pre /\ T = GPtr (GFragRef k)).
@@ -212,7 +187,7 @@ Section LoopInv.
   (** every selection has its entry *)
   Definition entry_cov (fields : list (name * (gotype * bool))) (s : selection) : Prop :=
     match s with
-    | SField a f sub => exists T, In (sel_key a f, (T, false)) fields /\ field_ty f sub T
+    | SField a f sub => exists T, In (sel_key a f, (T, false)) fields /\ field_ty f (merged_field (sel_key a f) all) T
     | SInline c sub => exists core, In (inline_cond m c, (GPtr core, true)) fields /\
                                     Good (inline_cond m c) (merged_inline m (inline_cond m c) all) core
     | SSpread f c body => In (f, (GPtr (GFragRef f), true)) fields
@@ -231,12 +206,13 @@ Section LoopInv.
     end.
 
   Definition Inv (st0 : gstate) (pre : list selection) (a : acc) : Prop :=
-    let '(fields, conds, done, st) := a in
+    let '(fields, conds, done, fdone, st) := a in
     NoDup (map fst fields) /\
     NoDup (map fst conds) /\
     (forall k T dash, In (k, (T, dash)) fields -> entry_src pre k T dash /\ TyOK st T) /\
     (forall s, In s pre -> entry_cov fields s /\ cond_cov conds s) /\
     (forall c, In c done <-> exists co sub, In (SInline co sub) pre /\ inline_cond m co = c) /\
+    (forall k, In k fdone <-> exists a f sub, In (SField a f sub) pre /\ sel_key a f = k) /\
     (forall tc l x, In (tc, l) conds -> In x l -> cond_src pre tc x) /\
     Ext st0 st.
 
@@ -259,17 +235,18 @@ Section LoopInv.
       exist *)
   Lemma entry_key_kind pre s rest k T dash :
     all = pre ++ s :: rest -> entry_src pre k T dash -> k = mkey m s ->
+    (mkind s = KField /\ exists a f sub, In (SField a f sub) pre /\ sel_key a f = k) \/
     (mkind s = KInline /\ exists c sub, In (SInline c sub) pre /\ inline_cond m c = k) \/
     (mkind s = KSpread /\ T = GPtr (GFragRef k) /\ dash = true).
   Proof.
     intros Hall Hsrc Hk. rewrite Hall in Hmembers.
     destruct Hsrc as [[Hd [a [f [sub [H1 [H2 _]]]]]]|[[Hd [c [sub [H1 [H2 _]]]]]|[Hd [c [body [H1 H2]]]]]].
-    - destruct (same_key_same_kind m pre s rest (SField a f sub) Hmembers H1) as [Hk1 Hk2]; [simpl; congruence|].
-      simpl in Hk1. congruence.
-    - destruct (same_key_same_kind m pre s rest (SInline c sub) Hmembers H1) as [Hk1 Hk2]; [simpl; congruence|].
-      left. split; [simpl in Hk1; congruence|]. exists c, sub. split; [exact H1 | congruence].
-    - destruct (same_key_same_kind m pre s rest (SSpread k c body) Hmembers H1) as [Hk1 Hk2]; [simpl; congruence|].
-      right. split; [simpl in Hk1; congruence|]. split; assumption.
+    - pose proof (same_key_same_kind m pre s rest (SField a f sub) Hmembers H1) as Hk1.
+      left. split; [simpl in Hk1; symmetry; apply Hk1; simpl; congruence|]. exists a, f, sub. split; [exact H1 | congruence].
+    - pose proof (same_key_same_kind m pre s rest (SInline c sub) Hmembers H1) as Hk1.
+      right. left. split; [simpl in Hk1; symmetry; apply Hk1; simpl; congruence|]. exists c, sub. split; [exact H1 | congruence].
+    - pose proof (same_key_same_kind m pre s rest (SSpread k c body) Hmembers H1) as Hk1.
+      right. right. split; [simpl in Hk1; symmetry; apply Hk1; simpl; congruence|]. split; assumption.
   Qed.
 
   Hypothesis Hlocal : forall s, In s all -> sel_local S frs m s = true.
@@ -299,7 +276,7 @@ Section LoopInv.
     rewrite Hlookup in H1. inversion H1; subst d'. exists fs. split; assumption.
   Qed.
 
-  Lemma Inv_intro st0 pre fields conds done st :
+  Lemma Inv_intro st0 pre fields conds done fdone st :
     NoDup (map fst fields) ->
     NoDup (map fst conds) ->
     (forall k T dash, In (k, (T, dash)) fields -> entry_src pre k T dash) ->
@@ -310,12 +287,22 @@ Section LoopInv.
     (forall c, (exists co sub, In (SInline co sub) pre /\ inline_cond m co = c) -> In c done) ->
     (forall tc l x, In (tc, l) conds -> In x l -> cond_src pre tc x) ->
     Ext st0 st ->
-    Inv st0 pre (fields, conds, done, st).
+    (forall k, In k fdone <-> exists a f sub, In (SField a f sub) pre /\ sel_key a f = k) ->
+    Inv st0 pre (fields, conds, done, fdone, st).
   Proof.
-    intros H1 H2 H3 H4 H5 H6 H7 H8 H9 H10. unfold Inv.
+    intros H1 H2 H3 H4 H5 H6 H7 H8 H9 H10 H11. unfold Inv.
     split; [exact H1|]. split; [exact H2|]. split; [intros k T dash H; split; [apply (H3 _ _ _ H) | apply (H4 _ _ _ H)]|].
     split; [intros s H; split; [apply (H5 _ H) | apply (H6 _ H)]|].
-    split; [intros c; split; [apply H7 | apply H8]|]. split; [exact H9 | exact H10].
+    split; [intros c; split; [apply H7 | apply H8]|]. split; [exact H11|]. split; [exact H9 | exact H10].
+  Qed.
+
+  Lemma fdone_nonfield pre s fdone : mkind s <> KField ->
+    (forall k, In k fdone <-> exists a f sub, In (SField a f sub) pre /\ sel_key a f = k) ->
+    (forall k, In k fdone <-> exists a f sub, In (SField a f sub) (pre ++ [s]) /\ sel_key a f = k).
+  Proof.
+    intros Hk H k. rewrite H. split; intros [a [f [sub [H1 H2]]]]; exists a, f, sub; (split; [|exact H2]).
+    - apply in_app_iff. left. exact H1.
+    - apply in_app_iff in H1 as [H1|[H1|[]]]; [exact H1|]. subst s. exfalso. apply Hk. reflexivity.
   Qed.
 
   Lemma step_inv st0 pre s rest a a' :
@@ -327,50 +314,82 @@ Section LoopInv.
     assert (Hs : In s all) by (rewrite Hall; apply in_app_iff; right; left; reflexivity).
     assert (Hincl : incl pre (pre ++ [s])) by (intros x Hx; apply in_app_iff; left; exact Hx).
     assert (Hlast : In s (pre ++ [s])) by (apply in_app_iff; right; left; reflexivity).
-    destruct a as [[[fields conds] done] st]. unfold Inv in HI.
-    destruct HI as (I1 & I2 & I3 & I4 & I5 & I6 & I7).
-    (* an older selection stored under the key of [s] *)
-    assert (Hsame : forall s', In s' pre -> mkey m s' = mkey m s -> mkind s' = mkind s /\ mkind s <> KField).
+    destruct a as [[[[fields conds] done] fdone] st]. unfold Inv in HI.
+    destruct HI as (I1 & I2 & I3 & I4 & I5 & I8 & I6 & I7).
+    (* an older selection stored under the key of [s] is of the same kind *)
+    assert (Hsame : forall s', In s' pre -> mkey m s' = mkey m s -> mkind s' = mkind s).
     { intros s' Hs' E. rewrite Hall in Hmembers. apply (same_key_same_kind m pre s rest s' Hmembers Hs' E). }
+    assert (Hpre_all : incl pre all) by (intros x Hx; rewrite Hall; apply in_app_iff; left; exact Hx).
     unfold step in Hstep. pose proof (Hlocal s Hs) as Hloc.
     destruct s as [al f sub|c sub|f c body].
     - (* ---- field ---- *)
       simpl in Hloc. set (k := sel_key al f) in *.
-      assert (Hfield : forall T st', Ext st st' -> TyOK st' T -> field_ty f sub T ->
-                Inv st0 (pre ++ [SField al f sub]) (aset k (T, false) fields, conds, done, st')).
-      { intros T st' Hext Hty Hft. apply Inv_intro.
-        - apply nodup_keys_aset. exact I1.
-        - exact I2.
-        - intros k0 T0 dash0 H. apply (In_aset _ _ _ _ I1) in H as [H|[H Hk]].
-          + inversion H; subst. left. split; [reflexivity|]. exists al, f, sub. split; [exact Hlast|]. split; [reflexivity | exact Hft].
-          + eapply entry_src_mono; [exact Hincl|]. apply (I3 _ _ _ H).
-        - intros k0 T0 dash0 H. apply (In_aset _ _ _ _ I1) in H as [H|[H Hk]].
-          + inversion H; subst. exact Hty.
-          + apply (TyOK_ext _ _ _ Hext). apply (I3 _ _ _ H).
-        - intros s0 H. apply in_app_iff in H as [H|[H|[]]].
-          + apply (entry_cov_incl fields); [|apply (I4 _ H)]. intros e He Ek. apply In_aset_keep; [exact He|].
-            intro E. destruct (Hsame s0 H) as [_ Hk]; [simpl; fold k; congruence | apply Hk; reflexivity].
-          + subst s0. simpl. exists T. split; [apply In_aset_new | exact Hft].
-        - intros s0 H. apply in_app_iff in H as [H|[H|[]]]; [apply (I4 _ H) | subst s0; exact I].
-        - intros c0 Hc. apply I5 in Hc as [co [sub0 [H1 H2]]]. exists co, sub0. split; [apply Hincl; exact H1 | exact H2].
-        - intros c0 [co [sub0 [H1 H2]]]. apply I5. apply in_app_iff in H1 as [H1|[H1|[]]]; [|discriminate]. exists co, sub0. split; assumption.
-        - intros tc l x H1 H2. eapply cond_src_mono; [exact Hincl|]. apply (I6 _ _ _ H1 H2).
-        - apply (Ext_trans _ _ _ I7 Hext). }
-      destruct (is_typename f) eqn:Etn.
-      + inversion Hstep; subst a'. apply Hfield; [apply Ext_refl | apply TyOK_string | left; split; [exact Etn | reflexivity]].
-      + destruct (field_type S m f) as [ft|] eqn:Eft; [|discriminate].
-        destruct (field_type_def _ _ Eft) as [fs [Hassoc Hd]].
-        assert (Hgt : exists g st', gen_type rec ft sub st = Ok (g, st') /\ a' = (aset k (g, false) fields, conds, done, st')).
-        { destruct Hd as [[n [ifs Ed]]|[n Ed]]; subst d; rewrite Hassoc in Hstep;
-            destruct (gen_type rec ft sub st) as [[g st']| | |]; try discriminate;
-            inversion Hstep; subst a'; exists g, st'; split; reflexivity. }
-        destruct Hgt as [g [st' [Hg Ea']]]. subst a'. unfold gen_type in Hg.
-        destruct (rec (unwrap ft) sub st) as [[[core b] st'']| | |] eqn:Er; try discriminate.
-        inversion Hg; subst g st''. clear Hg.
-        destruct (Hrec (unwrap ft) sub st core b st') as (Hb & Hext & Hty & Hgood); [|exact Er|].
-        { left. exists al, f. split; [exact Hs|]. split; [exact Etn|]. exists ft. split; [exact Eft | reflexivity]. }
-        subst b. apply Hfield; [exact Hext | apply TyOK_wrap; exact Hty|].
-        right. split; [exact Etn|]. exists ft, core. split; [exact Eft|]. split; [reflexivity | exact Hgood].
+      cbn [q_no_field_merge no_quirks negb andb] in Hstep.
+      destruct (mem k fdone) eqn:Efd.
+      + (* this response key was generated with its first selection *)
+        inversion Hstep; subst a'. apply mem_In in Efd. apply I8 in Efd as [a0 [f0 [sub0 [H1 H2]]]].
+        assert (Ef0 : f0 = f) by (apply (Hkeys a0 f0 sub0 al f sub (Hpre_all _ H1) Hs); exact H2).
+        subst f0. destruct (I4 _ H1) as [Hc1 _]. simpl in Hc1. rewrite H2 in Hc1.
+        apply Inv_intro; try assumption.
+        * intros k0 T0 dash0 H. eapply entry_src_mono; [exact Hincl|]. apply (I3 _ _ _ H).
+        * intros k0 T0 dash0 H. apply (I3 _ _ _ H).
+        * intros s0 H. apply in_app_iff in H as [H|[H|[]]]; [apply (I4 _ H) | subst s0; exact Hc1].
+        * intros s0 H. apply in_app_iff in H as [H|[H|[]]]; [apply (I4 _ H) | subst s0; exact I].
+        * intros c0 Hc. apply I5 in Hc as [co [sub1 [H3 H4]]]. exists co, sub1. split; [apply Hincl; exact H3 | exact H4].
+        * intros c0 [co [sub1 [H3 H4]]]. apply I5. apply in_app_iff in H3 as [H3|[H3|[]]]; [|discriminate]. exists co, sub1. split; assumption.
+        * intros tc l x H3 H4. eapply cond_src_mono; [exact Hincl|]. apply (I6 _ _ _ H3 H4).
+        * intros k0. rewrite I8. split; intros [a1 [f1 [sub1 [H3 H4]]]].
+          -- exists a1, f1, sub1. split; [apply Hincl; exact H3 | exact H4].
+          -- apply in_app_iff in H3 as [H3|[H3|[]]]; [exists a1, f1, sub1; split; assumption|].
+             inversion H3; subst a1 f1 sub1. exists a0, f, sub0. split; [exact H1 | rewrite H2; exact H4].
+      + apply mem_false in Efd.
+        assert (Hnew : forall s', In s' pre -> mkey m s' <> k).
+        { intros s' Hs' E. pose proof (Hsame s' Hs' E) as Hk. destruct s' as [a2 f2 sub2| |]; try discriminate.
+          apply Efd. apply I8. exists a2, f2, sub2. split; [exact Hs' | exact E]. }
+        assert (Hfd : forall k0, In k0 (k :: fdone) <-> exists a1 f1 sub1, In (SField a1 f1 sub1) (pre ++ [SField al f sub]) /\ sel_key a1 f1 = k0).
+        { intros k0. split.
+          - intros [E|H]; [exists al, f, sub; split; [exact Hlast | exact E]|].
+            apply I8 in H as [a1 [f1 [sub1 [H3 H4]]]]. exists a1, f1, sub1. split; [apply Hincl; exact H3 | exact H4].
+          - intros [a1 [f1 [sub1 [H3 H4]]]]. apply in_app_iff in H3 as [H3|[H3|[]]].
+            + right. apply I8. exists a1, f1, sub1. split; assumption.
+            + inversion H3; subst a1 f1 sub1. left. exact H4. }
+        assert (Hfield : forall T st', Ext st st' -> TyOK st' T -> field_ty f (merged_field k all) T ->
+                  Inv st0 (pre ++ [SField al f sub]) (aset k (T, false) fields, conds, done, k :: fdone, st')).
+        { intros T st' Hext Hty Hft. apply Inv_intro.
+          - apply nodup_keys_aset. exact I1.
+          - exact I2.
+          - intros k0 T0 dash0 H. apply (In_aset _ _ _ _ I1) in H as [H|[H Hk]].
+            + inversion H; subst. left. split; [reflexivity|]. exists al, f, sub. split; [exact Hlast|]. split; [reflexivity | exact Hft].
+            + eapply entry_src_mono; [exact Hincl|]. apply (I3 _ _ _ H).
+          - intros k0 T0 dash0 H. apply (In_aset _ _ _ _ I1) in H as [H|[H Hk]].
+            + inversion H; subst. exact Hty.
+            + apply (TyOK_ext _ _ _ Hext). apply (I3 _ _ _ H).
+          - intros s0 H. apply in_app_iff in H as [H|[H|[]]].
+            + apply (entry_cov_incl fields); [|apply (I4 _ H)]. intros e He Ek. apply In_aset_keep; [exact He|].
+              rewrite Ek. apply Hnew. exact H.
+            + subst s0. simpl. exists T. split; [apply In_aset_new | exact Hft].
+          - intros s0 H. apply in_app_iff in H as [H|[H|[]]]; [apply (I4 _ H) | subst s0; exact I].
+          - intros c0 Hc. apply I5 in Hc as [co [sub0 [H1 H2]]]. exists co, sub0. split; [apply Hincl; exact H1 | exact H2].
+          - intros c0 [co [sub0 [H1 H2]]]. apply I5. apply in_app_iff in H1 as [H1|[H1|[]]]; [|discriminate]. exists co, sub0. split; assumption.
+          - intros tc l x H1 H2. eapply cond_src_mono; [exact Hincl|]. apply (I6 _ _ _ H1 H2).
+          - apply (Ext_trans _ _ _ I7 Hext).
+          - exact Hfd. }
+        destruct (is_typename f) eqn:Etn.
+        * inversion Hstep; subst a'. apply Hfield; [apply Ext_refl | apply TyOK_string | left; split; [exact Etn | reflexivity]].
+        * destruct (field_type S m f) as [ft|] eqn:Eft; [|discriminate].
+          destruct (field_type_def _ _ Eft) as [fs [Hassoc Hd]].
+          assert (Hgt : exists g st', gen_type rec ft (merged_field k all) st = Ok (g, st') /\
+                                      a' = (aset k (g, false) fields, conds, done, k :: fdone, st')).
+          { destruct Hd as [[n [ifs Ed]]|[n Ed]]; subst d; rewrite Hassoc in Hstep;
+              destruct (gen_type rec ft (merged_field k all) st) as [[g st']| | |]; try discriminate;
+              inversion Hstep; subst a'; exists g, st'; split; reflexivity. }
+          destruct Hgt as [g [st' [Hg Ea']]]. subst a'. unfold gen_type in Hg.
+          destruct (rec (unwrap ft) (merged_field k all) st) as [[[core b] st'']| | |] eqn:Er; try discriminate.
+          inversion Hg; subst g st''. clear Hg.
+          destruct (Hrec (unwrap ft) (merged_field k all) st core b st') as (Hb & Hext & Hty & Hgood); [|exact Er|].
+          { left. exists al, f, sub. split; [exact Hs|]. split; [exact Etn|]. split; [reflexivity|]. exists ft. split; [exact Eft | reflexivity]. }
+          subst b. apply Hfield; [exact Hext | apply TyOK_wrap; exact Hty|].
+          right. split; [exact Etn|]. exists ft, core. split; [exact Eft|]. split; [reflexivity | exact Hgood].
     - (* ---- inline fragment ---- *)
       destruct (negb hasTn && negb (is_object d)); [discriminate|].
       destruct (match c with None => q_nil_cond_panics no_quirks | Some c' => negb (named_exists S c') end); [discriminate|].
@@ -388,6 +407,7 @@ Section LoopInv.
         * intros c0 [co' [sub' [H3 H4]]]. apply I5. apply in_app_iff in H3 as [H3|[H3|[]]]; [exists co', sub'; split; assumption|].
           inversion H3; subst co' sub'. exists co, sub0. split; [exact H1 | rewrite H2; exact H4].
         * intros tc l x H3 H4. eapply cond_src_mono; [exact Hincl|]. apply (I6 _ _ _ H3 H4).
+        * apply fdone_nonfield; [discriminate | exact I8].
       + apply mem_false in Edone.
         unfold gen_type in Hstep. simpl unwrap in Hstep.
         destruct (rec cond (merged_inline m cond all) st) as [[[core b] st']| | |] eqn:Er; try discriminate.
@@ -395,7 +415,7 @@ Section LoopInv.
         { right. exists c, sub. split; [exact Hs|]. split; reflexivity. }
         subst b. simpl in Hstep. inversion Hstep; subst a'. clear Hstep.
         assert (Hnew : forall s', In s' pre -> mkey m s' <> cond).
-        { intros s' Hs' E. destruct (Hsame s' Hs') as [Hk _]; [simpl; exact E|].
+        { intros s' Hs' E. pose proof (Hsame s' Hs' E) as Hk.
           destruct s' as [| co sub0 |]; try discriminate. apply Edone. apply I5. exists co, sub0. split; [exact Hs' | exact E]. }
         apply Inv_intro.
         * apply nodup_keys_aset. exact I1.
@@ -423,6 +443,7 @@ Section LoopInv.
           -- eapply cond_src_mono; [exact Hincl|]. apply (I6 _ _ _ H3 H4).
           -- subst tc x. left. split; [reflexivity|]. exists c, sub. split; [exact Hlast | reflexivity].
         * apply (Ext_trans _ _ _ I7 Hext).
+        * apply fdone_nonfield; [discriminate | exact I8].
     - (* ---- fragment spread ---- *)
       destruct (negb hasTn && negb (is_object d)); [discriminate|].
       inversion Hstep; subst a'. clear Hstep. fold (frag_cond f).
@@ -437,7 +458,7 @@ Section LoopInv.
         * apply (I3 _ _ _ H).
       + intros s0 H. apply in_app_iff in H as [H|[H|[]]].
         * destruct (bytes_eq_dec (mkey m s0) f) as [E|N].
-          -- destruct (Hsame s0 H) as [Hk _]; [simpl; exact E|].
+          -- pose proof (Hsame s0 H E) as Hk.
              destruct s0 as [| | f' c' body']; try discriminate. simpl in E. subst f'. simpl. apply In_aset_new.
           -- apply (entry_cov_incl fields); [|apply (I4 _ H)]. intros e He Ek. apply In_aset_keep; [exact He | congruence].
         * subst s0. simpl. apply In_aset_new.
@@ -450,6 +471,7 @@ Section LoopInv.
         * eapply cond_src_mono; [exact Hincl|]. apply (I6 _ _ _ H3 H4).
         * subst tc x. right. exists c, body. split; [exact Hlast | reflexivity].
       + exact I7.
+      + apply fdone_nonfield; [discriminate | exact I8].
   Qed.
 
   Lemma loop_inv st0 rest : forall pre a a',
@@ -463,7 +485,7 @@ Section LoopInv.
       apply (IH (pre ++ [s]) a1 a'); [rewrite <- app_assoc; exact Hall | apply (step_inv st0 pre s rest a a1 Hall HI Es) | exact Hl].
   Qed.
 
-  Lemma inv_init st0 : Inv st0 [] ([], [], [], st0).
+  Lemma inv_init st0 : Inv st0 [] ([], [], [], [], st0).
   Proof.
     apply Inv_intro.
     - constructor.
@@ -476,5 +498,6 @@ Section LoopInv.
     - intros c [co [sub [[] _]]].
     - intros tc l x [].
     - apply Ext_refl.
+    - intros k. split; [intros [] | intros [a [f [sub [[] _]]]]].
   Qed.
 End LoopInv.
